@@ -27,7 +27,7 @@ ID = "C10"
 LEVEL = "model_checking"
 DESIGN_REF = "DESIGN.md 4/C10"
 RULE = (
-    "case = (configuration, operation, schedule): 16 hand-shaped namespace trees (nesting 0..2, several versions of one name, legacy "
+    "case = (configuration, operation, schedule): 18 hand-shaped namespace trees (nesting 0..2, several versions of one name, legacy "
     ".uavcan files, two roots, cross-root references, targets that are also dependencies sorting before / after their referrer, "
     "diamonds, stray non-definition files) x {read_namespace; read_files for every non-empty target subset (<=5 files: all subsets, "
     "else singles, pairs and the full set) in sorted and reversed list order}; schedules: every choice point (rglob result order, "
@@ -71,6 +71,9 @@ def configs():
     C["eight-flat"] = {"root": "ra", "lookups": [], "defs": [D("ra", "ra.T%d" % i, (1, 0), [("ra.T%d" % (i + 1), (1, 0))] if i % 3 == 0 and i < 7 else []) for i in range(8)]}
     # ordering by FULL NAME: a lower-case type name / capitalised namespace next to a sub-namespace
     C["sort-namespace-vs-name"] = {"root": "ra", "lookups": [], "defs": [D("ra", "ra.zulu", (1, 0)), D("ra", "ra.mid.Thing", (1, 0)), D("ra", "ra.Upper.Thing", (1, 0)), D("ra", "ra.Zeta", (1, 0)), D("ra", "ra._x", (1, 0)), D("ra", "ra.A_.B", (1, 0)), D("ra", "ra.A", (1, 0))]}
+    # one definition refers to TWO versions of the same type (directly, and through another definition): both belong to the closure
+    C["two-versions-of-one-dependency"] = {"root": "ra", "lookups": ["rb"], "defs": [D("ra", "ra.A", (1, 0), [("rb.X", (0, 1)), ("rb.X", (0, 2))]), D("rb", "rb.X", (0, 1)), D("rb", "rb.X", (0, 2)), D("rb", "rb.X", (0, 3)), D("ra", "ra.B", (1, 0), [("rb.X", (0, 2))])]}
+    C["two-versions-through-chain"] = {"root": "ra", "lookups": [], "defs": [D("ra", "ra.A", (1, 0), [("ra.M", (1, 0)), ("ra.X", (2, 0))]), D("ra", "ra.M", (1, 0), [("ra.X", (1, 0))]), D("ra", "ra.X", (1, 0)), D("ra", "ra.X", (2, 0))]}
     C["same-name-roots"] = {"root": "p/ra", "lookups": ["q/ra"], "defs": [D("p/ra", "ra.A", (1, 0), [("ra.X", (1, 0))]), D("q/ra", "ra.X", (1, 0)), D("q/ra", "ra.Y", (1, 0))]}
     return C
 
